@@ -10,7 +10,7 @@ from ..dispatch import Dispatch
 from ..grammar import Grammar, PARSER, LEXER
 from ..miniev import CannotEval, ev
 from ..model import AnalysisError, AnchorMissing, dotted, find_assign, last_attr, unparse, walk_no_nested
-from ..paths import paths, calls_on_path
+from ..paths import paths, calls_on_path, cond_atoms
 from ..pipeline import Pipeline
 from .c08 import select_stmts, p_index
 
@@ -113,6 +113,21 @@ def run(model, col, tier):
         # literal guard
         guards = [n for n in ast.walk(f) if isinstance(n, ast.If) and "isinstance" in unparse(n.test) and "LiteralExpression" in unparse(n.test)]
         col.check(bool(guards), "R13.6", f"{OOB}::_ValidateArrayExpression literal test", "constant indices are recognised as ast.LiteralExpression", None, OOB, f)
+
+        def _pure_lit(t):
+            if isinstance(t, ast.UnaryOp) and isinstance(t.op, ast.Not):
+                t = t.operand
+            return isinstance(t, ast.Call) and isinstance(t.func, ast.Name) and t.func.id == "isinstance" and len(t.args) == 2 and "LiteralExpression" in unparse(t.args[1])
+
+        # the value compared with the bound is the value written in the source, typed as the parser types integer constants
+        from . import c08 as _c08_13, c09 as _c09_13
+
+        _c08_13.check_ctor_params_unchanged(model, col, "R13.1")
+        _c09_13.check_literal_types(model, col, "R13.1")
+        narrowed = [" ".join(unparse(g.test).split())[:90] for g in guards if not _pure_lit(g.test)]
+        col.check(not narrowed, "R13.1", f"{OOB}::_ValidateArrayExpression what counts as a constant index", "being a LiteralExpression is the whole test",
+                  f"`{narrowed[0] if narrowed else ''}` narrows what counts as a constant index: literals that fail the extra condition (another literal type, another spelling) are never "
+                  "compared with the bound", OOB, guards[0] if guards else f)
         # every constant index reaches the comparison: no exit between the literal test and the bounds test
         skipping = []
         nlit = 0
@@ -181,9 +196,17 @@ def run(model, col, tier):
         col.bad("R13.3", f"{IDX}::_ValidateArrayExpression", "no rejecting branch found: non-integer indices are never rejected", IDX, f3)
     else:
         tname = None
+        from ..sem import local_env as _le133, rtext as _rt133
+
+        env133 = _le133(f3, allow_impure=True)
         for n in walk_no_nested(f3):
-            if isinstance(n, ast.Assign) and isinstance(n.targets[0], ast.Name) and "GetExpression().GetType()" in unparse(n.value):
+            if isinstance(n, ast.Assign) and isinstance(n.targets[0], ast.Name) and "GetExpression().GetType()" in _rt133(n.value, {k: v for k, v in env133.items() if k != n.targets[0].id}):
                 tname = n.targets[0].id
+        # the test is reached for every index expression: no path returns before it
+        early = [evs for evs, status in paths(f3.body) if status != "raise" and not any(e.kind == "cond" and e.node is rif3.test for e in evs)]
+        col.check(not early, "R13.3", f"{IDX}::_ValidateArrayExpression tests every index", "every returning path evaluates the index-type test",
+                  f"a path returns before the index type is tested (under {[(k[:50], v) for k, v in cond_atoms(early[0]).items()][:3] if early else ''}): index expressions of that form "
+                  "(e.g. literals) are accepted whatever their type, and a float constant indexes an array", IDX, f3)
         classes = ["Integer", "UnsignedInteger", "Float"]
         res = {}
 
